@@ -49,9 +49,9 @@ func (f *vxFST) step() { f.stepY(true) }
 
 // stepY: yield marks the calls whose order against other goroutines can matter; calls
 // that commute with every other call of the model (MkdirAll of an existing or new
-// directory chain, Sync, Chtimes) are scheduling points only in the thorough tier.
+// directory chain, Sync, Chtimes) are not scheduling points.
 func (f *vxFST) stepY(yield bool) {
-	if f.conc && (yield || vxTier() == "thorough") {
+	if f.conc && yield {
 		vxYield()
 	}
 	if f.cutAt == f.calls && f.cutKind == 0 {
@@ -94,7 +94,12 @@ func (f *vxFST) walk(op, name string) (*vxNode, string, error) {
 		}
 		d = n
 	}
-	return d, parts[len(parts)-1], nil
+	last := parts[len(parts)-1]
+	if last == "" || last == "." {
+		// an empty final element names no file (the real os.Root answers ENOENT / EINVAL)
+		return nil, "", vxPathErr(op, name, fs.ErrNotExist)
+	}
+	return d, last, nil
 }
 
 var vxErrNotDir = &vxErrT{"not a directory"}
